@@ -90,8 +90,14 @@ TypeOf(x, C, P) ==
                     IF ~Ok(t) THEN ERR ELSE IF x.t = UNIT THEN UNIT ELSE IF Fits(t, x.t) THEN x.t ELSE ERR
     [] e = "asg" -> IF x.x \in DOMAIN C.G /\ C.G[x.x].asg /\ Fits(TypeOf(x.v, C, P), C.G[x.x].t) THEN C.G[x.x].t ELSE ERR
     [] e = "let" -> IF Fits(TypeOf(x.v, C, P), x.t) THEN TypeOf(x.body, BindV(C, x.x, x.t, TRUE), P) ELSE ERR
+    \* overloading: the functions that share the called function's Aldor name are the candidates; the call is
+    \* well typed iff exactly one candidate accepts the argument types (Resolve), and it is the intended one
     [] e = "call" ->
-         IF x.fi \in 1..Len(P.funs) /\ AllFit(TypesOf(x.args, C, P), P.funs[x.fi].pts) THEN P.funs[x.fi].rt ELSE ERR
+         IF x.fi \in 1..Len(P.funs)
+         THEN LET ts == TypesOf(x.args, C, P)
+                  cands == {j \in 1..Len(P.funs) : P.funs[j].oname = P.funs[x.fi].oname /\ AllFit(ts, P.funs[j].pts)}
+              IN IF cands = {x.fi} THEN P.funs[x.fi].rt ELSE ERR
+         ELSE ERR
     [] e = "callv" ->
          LET f == TypeOf(x.f, C, P) IN
          IF Ok(f) /\ f[1] = "fn" /\ AllFit(TypesOf(x.args, C, P), f[2]) THEN f[3] ELSE ERR
@@ -139,6 +145,13 @@ TypeOf(x, C, P) ==
     [] e \in {"break", "iterate"} -> IF C.loop THEN ANY ELSE ERR
     [] e = "ret" -> IF Ok(C.ret) /\ Fits(TypeOf(x.v, C, P), C.ret) THEN ANY ELSE ERR
     [] e = "error" -> ANY
+    [] e = "throw" -> IF \E i \in 1..Len(P.exns) : P.exns[i] = x.exn THEN ANY ELSE ERR
+    [] e = "try" ->
+         IF Fits(TypeOf(x.body, [C EXCEPT !.loop = FALSE, !.ret = ERR], P), x.t)
+            /\ (\A i \in 1..Len(x.hs) : (\E j \in 1..Len(P.exns) : P.exns[j] = x.hs[i].exn)
+                                          /\ Fits(TypeOf(x.hs[i].body, [C EXCEPT !.loop = FALSE, !.ret = ERR], P), x.t))
+            /\ (x.fin.e = "none" \/ Ok(TypeOf(x.fin, [C EXCEPT !.loop = FALSE, !.ret = ERR], P)))
+         THEN x.t ELSE ERR
     [] OTHER -> ERR
 
 (* functions: parameters are constants, the body fits the declared result                     *)
@@ -163,7 +176,7 @@ FormsOk(i, G, P) ==
             ELSE Ok(TypeOf(d.x, Ctx(G, ERR, FALSE, ERR), P)) /\ FormsOk(i + 1, G, P)
 
 (* the names of the functions are bound as constants (not assignable) from the start *)
-WellTyped(P) == FormsOk(1, [n \in {P.funs[i].name : i \in 1..Len(P.funs)} |->
+WellTyped(P) == FormsOk(1, [n \in {P.funs[i].oname : i \in 1..Len(P.funs)} |->
                                [t |-> <<"const">>, asg |-> FALSE]], P)
 
 VARIABLE pid
